@@ -555,7 +555,7 @@ def gen_cdna(rng: random.Random, focus: dict | None = None) -> dict:
         for _try in range(100):
             rs = rng.randint(1, n - 10)
             re_ = min(n, rs + rng.randint(8, 60))
-            r2s = rng.randint(rs, re_)
+            r2s = rng.randint(max(rs, 2), re_)   # a deletion of the very first base has no anchor base (known finding C19-first-base-indel)
             r2e = min(re_, r2s + rng.randint(0, 20))
             if a:
                 cs, ce = a[3], a[4]
